@@ -66,7 +66,7 @@ def check(ctx, replay=None):
     if len(cases) < 32:
         raise vlib.Machinery("only %d load cases generated" % len(cases))
     envs = [{"GOMAXPROCS": "1"}, {}] if not th else [{"GOMAXPROCS": "1"}, {}, {"GOMAXPROCS": "2"}, {"GOMAXPROCS": "16"}]
-    reps = 1 if not th else 5
+    reps = 1 if not th else 25
     work = [(c, env) for c in cases.values() for env in envs for _ in range(reps)]
 
     def one(w):
